@@ -832,6 +832,13 @@ def run(ctx):
     ctx.assumptions += ['"well-formed file" = produced by the writers render11/12/15/2x of Model/Adf.lean rendered by Model/AdfText.lean '
                         '(real ADAS files are not available offline)',
                         'tokens fit their Fortran fields (positive numbers in 9 columns for ADF12/21/22, log10 values > -100 for ADF11)']
+    # K (translator): regenerate the literal table from /repo's current source; `lex_literals_pinned`, `charge_list_pinned`,
+    # `norm_pinned` and the probe switch `probeAcceptsMinus` are re-checked against it by the build below
+    from harness.translators import adf_lex
+    lits, changed = adf_lex.run()
+    ctx.extra['generated_literals'] = dict(regexes=len(lits['regexes']), slices=len(lits['slices']), readvalues=len(lits['readvalues']),
+                                           probe_regex=lits['probe'], probe_accepts_minus=adf_lex.probe_accepts_minus(lits['probe']),
+                                           rewritten=changed)
     ctx.lean_check(['Cherab.Props.C08'], 'Cherab/Audit/C08.lean')
     os.environ['HOME'] = _HOME
     w = World()
@@ -888,7 +895,32 @@ def _streams(ctx, w):
 
 
 def replay(ctx, path):
+    """re-execute a stored failing input against the real code, then re-run the stream it came from (same seed / tier)"""
+    import random
     r = json.load(open(path))
-    print(json.dumps(r, indent=1)[:3000])
+    rp = r.get('replay') or {}
+    print('signature:', r.get('signature'))
+    print('description:', r.get('description'))
+    print('case:', json.dumps(rp.get('case'), default=str))
+    if rp.get('file') and (rp.get('case') or {}).get('format') == 'adf11':
+        from cherab.core import atomic
+        from cherab.openadas.parse import parse_adf11
+        case = rp['case']
+        el = [e for e in vars(atomic).values() if isinstance(e, atomic.Element) and not isinstance(e, atomic.Isotope)
+              and e.symbol == case['requested']][0]
+        d = tempfile.mkdtemp(prefix='c08replay_')
+        fp = os.path.join(d, 'replay.dat')
+        open(fp, 'w').write(rp['file'])
+        st, out = call(parse_adf11, el, fp)
+        if st == 'ok':
+            for z, blk in out[el].items():
+                print('parse_adf11 -> Z1=%s: ne shape %s (file has %d), te shape %s (file has %d), rates shape %s'
+                      % (z, np.shape(blk['ne']), case['n_ne'], np.shape(blk['te']), case['n_te'], np.shape(blk['rates'])))
+        else:
+            print('parse_adf11 raised', st, out)
+        shutil.rmtree(d, ignore_errors=True)
+    ctx.tier = r.get('tier', ctx.tier)
+    ctx.seed = r.get('seed', ctx.seed)
+    ctx.rng = random.Random('%s/%s/%d' % (ctx.prop, ctx.tier, ctx.seed))
     run(ctx)
     return ctx.finish()
